@@ -102,7 +102,12 @@ func c01Meta(b *wire.MsgBlock) txmgr.BlockMeta {
 // The node may fail one request, the wallet database one call. Afterwards either the step succeeded and the
 // recorded chain is exactly ..,A,N1..Nb with the follower's tip at Nb, or it failed and the recorded chain
 // and the follower's tip are what they were.
-func VerifC01TipStep() {
+func VerifC01TipStep() { c01TipStep(2, 3) }
+
+// deeper: wallet branch up to 3 blocks, best branch up to 4 blocks above the fork
+func VerifC01TipStepDeep() { c01TipStep(3, 4) }
+
+func c01TipStep(maxA, maxB int) {
 	st := txmgr.VerifNewStoresWithKeystoreManager([]byte("DJr6BomK"))
 	node := &c01Node{}
 	w := &WalletManager{config: &config.Config{Wallet: config.NewDefWalletConfig()}, db: st.DB, chainParams: config.ChainParams,
@@ -111,7 +116,7 @@ func VerifC01TipStep() {
 
 	// ids (drawn in native runs too, so that replays read the same value sequence)
 	c01HdrReg, c01HdrIDs, c01IDSeeds = nil, nil, nil
-	for i := 0; i < 7; i++ {
+	for i := 0; i < 2+maxA+maxB; i++ {
 		var id wire.Hash
 		copy(id[:], rt.NondetBytes(32))
 		for _, o := range c01IDSeeds {
@@ -121,8 +126,8 @@ func VerifC01TipStep() {
 	}
 	H := rt.NondetU64()
 	rt.Assume(H >= 2 && H < 1<<56)
-	a := rt.NondetLen(0, 2)
-	b := rt.NondetLen(1, 3)
+	a := rt.NondetLen(0, maxA)
+	b := rt.NondetLen(1, maxB)
 
 	P := c01Block(H-1, wire.Hash{}, 10)
 	A := c01Block(H, P.BlockHash(), 11)
